@@ -90,10 +90,11 @@ def match_any_paths(
     See ``filter_paths()`` for signature details.
     """
     return any(
-        filter_paths(
+        True
+        for _ in filter_paths(
             paths,
             included_patterns=included_patterns,
             excluded_patterns=excluded_patterns,
             case_sensitive=case_sensitive,
-        ),
+        )
     )
